@@ -93,15 +93,6 @@ impl<T> ShimDedupByKey<T> for Vec<T> {
     fn shim_dedup_by_key<K: PartialEq, F: FnMut(&T) -> K>(&mut self, mut f: F) { self.dedup_by_key(|x| f(&*x)) }
 }
 
-// case::CaseExt::to_snake (foreign trait method): the text is an uninterpreted function of the input
-pub uninterp spec fn snake(s: Seq<char>) -> Seq<char>;
-pub trait ShimToSnake { spec fn snview(&self) -> Seq<char>; fn shim_to_snake(&self) -> (r: String) ensures r@ == snake(self.snview()); }
-impl ShimToSnake for String {
-    open spec fn snview(&self) -> Seq<char> { self@ }
-    #[verifier::external_body]
-    fn shim_to_snake(&self) -> (r: String) { use case::CaseExt; self.to_snake() }
-}
-
 // ---------------- proved lemmas about the specifications above ----------------
 // concatenation: every element comes from one of the parts, and every element of every part is there
 pub proof fn lemma_concat_index<B>(ys: Seq<Vec<B>>, t: int)
